@@ -491,6 +491,19 @@ end BCtx
 /-! ## from the structured statements to the generator's input and to stderr -/
 
 mutual
+/-- `usesElementLoop`: a statement, at any nesting depth, copies a slice element by element
+(`for i, e := range …`) -/
+def Stmt.usesLoop : Stmt → Bool
+  | .sliceLoop _ _ _ => true
+  | .sliceCast _ _ _ _ => true
+  | .nest _ _ _ _ body _ => Stmt.listUsesLoop body
+  | _ => false
+def Stmt.listUsesLoop : List Stmt → Bool
+  | [] => false
+  | s :: rest => Stmt.usesLoop s || Stmt.listUsesLoop rest
+end
+
+mutual
 def Stmt.toAssignments (env : Env) : Stmt → List Assignment
   | .skip lhs => [.skipField (lhs.assignExpr env)]
   | .noMatch lhs _ => [.noMatchField (lhs.assignExpr env)]
